@@ -3,35 +3,42 @@ From Coq Require Import List NArith Bool.
 From V Require Import C21.Model C32.Model C32.Proofs.
 Import ListNotations.
 
-(* For every number of threads, every work list per thread and EVERY schedule (list of thread ids, i.e. every
-   interleaving of the atomic protocol steps): the shared table never holds a text twice, *)
-Theorem table_injective : forall tbl work sched, NoDup tbl -> NoDup (table (run (init tbl work) sched)).
+(* For every number of threads, every work list per thread, EVERY schedule (list of thread ids, i.e. every interleaving
+   of the atomic protocol steps) and every behaviour of the string block (bf: at which epochs it is full and must be
+   grown by the lock holder, which replaces the shared structures without changing the texts): the shared table never
+   holds a text twice, *)
+Theorem table_injective : forall bf tbl work sched, NoDup tbl -> NoDup (table (run bf (init tbl work) sched)).
 Proof. exact table_injective_proof. Qed.
 Print Assumptions table_injective.
 
 (* every atom handed to a thread denotes the text the thread asked for, *)
-Theorem returned_atom_in_table : forall tbl work sched s i, NoDup tbl ->
-  In (s, i) (results (run (init tbl work) sched)) -> nth_error (table (run (init tbl work) sched)) i = Some s.
+Theorem returned_atom_in_table : forall bf tbl work sched s i, NoDup tbl ->
+  In (s, i) (results (run bf (init tbl work) sched)) -> nth_error (table (run bf (init tbl work) sched)) i = Some s.
 Proof. exact returned_atom_in_table_proof. Qed.
 Print Assumptions returned_atom_in_table.
 
 (* every thread gets the same atom for the same text, *)
-Theorem same_text_same_atom : forall tbl work sched s i j, NoDup tbl ->
-  In (s, i) (results (run (init tbl work) sched)) -> In (s, j) (results (run (init tbl work) sched)) -> i = j.
+Theorem same_text_same_atom : forall bf tbl work sched s i j, NoDup tbl ->
+  In (s, i) (results (run bf (init tbl work) sched)) -> In (s, j) (results (run bf (init tbl work) sched)) -> i = j.
 Proof. exact same_text_same_atom_proof. Qed.
 Print Assumptions same_text_same_atom.
 
 (* and different texts never share an atom. *)
-Theorem same_atom_same_text : forall tbl work sched s1 s2 i, NoDup tbl ->
-  In (s1, i) (results (run (init tbl work) sched)) -> In (s2, i) (results (run (init tbl work) sched)) -> s1 = s2.
+Theorem same_atom_same_text : forall bf tbl work sched s1 s2 i, NoDup tbl ->
+  In (s1, i) (results (run bf (init tbl work) sched)) -> In (s2, i) (results (run bf (init tbl work) sched)) -> s1 = s2.
 Proof. exact same_atom_same_text_proof. Qed.
 Print Assumptions same_atom_same_text.
 
 (* the invariant is not vacuous: without the epoch re-check under the lock a schedule exists that inserts a text twice *)
 Example epoch_recheck_necessary :
-  nodupb (table (run_broken (init [] [[[1%N]]; [[1%N]]]) [0; 1; 0; 0; 0; 1; 1; 1]%nat)) = false.
+  nodupb (table (run_broken (fun _ => false) (init [] [[[1%N]]; [[1%N]]]) [0; 1; 0; 0; 0; 1; 1; 1]%nat)) = false.
 Proof. vm_compute. reflexivity. Qed.
 Example same_schedule_is_safe_with_recheck :
-  nodupb (table (run (init [] [[[1%N]]; [[1%N]]]) [0; 1; 0; 0; 0; 1; 1; 1; 1; 1; 1; 1]%nat))= true
-  /\ results (run (init [] [[[1%N]]; [[1%N]]]) [0; 1; 0; 0; 0; 1; 1; 1; 1; 1; 1; 1]%nat) = [([1%N], 0%nat); ([1%N], 0%nat)].
+  nodupb (table (run (fun _ => false) (init [] [[[1%N]]; [[1%N]]]) [0; 1; 0; 0; 0; 1; 1; 1; 1; 1; 1; 1]%nat))= true
+  /\ results (run (fun _ => false) (init [] [[[1%N]]; [[1%N]]]) [0; 1; 0; 0; 0; 1; 1; 1; 1; 1; 1; 1]%nat) = [([1%N], 0%nat); ([1%N], 0%nat)].
 Proof. vm_compute. auto. Qed.
+
+(* growth of the block while another thread waits with an old snapshot: the waiting thread starts over and finds the text *)
+Example growth_forces_retry :
+  results (run (fun e => Nat.eqb e 0) (init [] [[[1%N]]; [[1%N]]]) [0; 1; 0; 0; 0; 0; 1; 1; 1; 1; 1]%nat) = [([1%N], 0%nat); ([1%N], 0%nat)].
+Proof. vm_compute. reflexivity. Qed.
